@@ -52,12 +52,15 @@ class World:
         now = self.now = sc.its_now_s(T0)
         live = dict(start=now - 1000, duration=("hours", 100))
         self.root = p.root("root", issue=[sc.perm_all(rng.choice([2, 3]))], **live)
-        self.root2 = p.root("root2", issue=[sc.perm_explicit([36, 37], 2)], app=[36], **live)
-        self.aa1 = p.issue(self.root, "aa1", issue=[sc.perm_explicit([36, 37, 638], 1)], **live)
-        self.aa2 = p.issue(self.root, "aa2", issue=[sc.perm_all(1)], app=[36], **live)
+        # issuing permissions split over 1-3 explicit groups in random order: the issuing scope is their union
+        self.root2 = p.root("root2", issue=sc.split_groups([36, 37], rng, 2), app=[36], **live)
+        self.aa1 = p.issue(self.root, "aa1", issue=sc.split_groups([36, 37, 638], rng, 1), **live)
+        self.aa2 = p.issue(self.root, "aa2", issue=sc.split_groups([36], rng, 1, with_all=True), app=[36], **live)
         self.aa3 = p.issue(self.root2, "aa3", issue=[sc.perm_explicit([36], 1)], **live)       # no appPermissions
         self.at_a = p.issue(self.aa1, app=[36, 37], **live)
         self.at_b = p.issue(self.aa1, app=[36], **live)
+        self.at_x = p.issue(self.aa1, app=[638, 36], **live)           # ITS-AIDs across the issuer's groups
+        self.at_y = p.issue(self.aa1, app=[37, 638], **live)
         self.at_c = p.issue(self.aa2, app=[99, 638], **live)
         self.at_d = p.issue(self.aa3, app=[36], **live)
         self.at_r = p.issue(self.root, app=[36, 37], **live)                                    # ticket straight from the root
@@ -68,7 +71,9 @@ class World:
         self.eroot = p.root("evil-root", issue=[sc.perm_all(3)], **live)
         self.eaa = p.issue(self.eroot, "evil-aa", issue=[sc.perm_all(1)], **live)
         self.eat = p.issue(self.eaa, app=[36, 37], **live)
-        own = [self.at_a, self.at_b, self.at_c, self.at_d, self.at_r, self.at_exp, self.at_fut, self.eat]
+        own = [self.at_a, self.at_b, self.at_x, self.at_y, self.at_c, self.at_d, self.at_r, self.at_exp, self.at_fut, self.eat]
+        self.honest = [self.aa1, self.aa2, self.aa3, self.at_a, self.at_b, self.at_x, self.at_y, self.at_c, self.at_d,
+                       self.at_r, self.at_exp, self.at_fut]
         self.signers = own                      # tickets whose private key the harness holds
         aa1d = ("sha256AndDigest", self.aa1.as_hashedid8())
         raw = []
@@ -121,6 +126,22 @@ class World:
 
     def pick(self, pool=None):
         return self.variant(self.rng.choice(pool or self.objs))
+
+
+def honest_world(ctx, w):
+    """every honest certificate obtained from the issuing API (permissions inside the UNION of the issuer's groups)
+    must come back signed and chain to its root -- judged by the independent chain checker"""
+    roots = {sc.hid8(r.certificate): r.certificate for r in (w.root, w.root2)}
+    cas = {sc.hid8(a.certificate): a.certificate for a in (w.aa1, w.aa2, w.aa3)}
+    for c in w.honest:
+        ok, why = sc.chain_ok(c.certificate, roots, cas)
+        ctx.evals()
+        if not ok or not c.verify(w.pki.backend):
+            iss = roots.get(bytes(c.certificate["issuer"][1])) or cas.get(bytes(c.certificate["issuer"][1]))
+            ctx.violation(f"issuing API / Certificate.verify refuse an honest certificate whose permissions "
+                          f"{c.certificate['toBeSigned'].get('appPermissions')} lie within its issuer's groups "
+                          f"{iss['toBeSigned'].get('certIssuePermissions') if iss else None} ({why})",
+                          {"witness": "groups"})
 
 
 def att_tok(A, obj):
@@ -183,7 +204,7 @@ def gen_history(ctx, w, n_ops):
     aas = [a for a in (w.aa1, w.aa2, w.aa3) if rng.random() < 0.65]
     ats = [a for a in (w.at_a, w.at_c) if rng.random() < 0.2]
     ops.append(("new", roots, aas, ats))
-    genuine_chain = [(w.at_a, w.aa1, w.root), (w.at_b, w.aa1, w.root), (w.at_c, w.aa2, w.root), (w.at_d, w.aa3, w.root2),
+    genuine_chain = [(w.at_a, w.aa1, w.root), (w.at_b, w.aa1, w.root), (w.at_x, w.aa1, w.root), (w.at_y, w.aa1, w.root), (w.at_c, w.aa2, w.root), (w.at_d, w.aa3, w.root2),
                      (w.eat, w.eaa, w.eroot), (w.at_sub, w.subok, w.aa1), (w.escal, w.aa1, w.root),
                      (w.suball, w.aa1, w.root), (w.at_exp, w.aa1, w.root), (w.forged, w.aa1, w.root)]
     for _ in range(n_ops):
@@ -207,7 +228,7 @@ def gen_history(ctx, w, n_ops):
             ops.append(("vseq", [c.certificate for c in ch]))
         else:
             if rng.random() < 0.6:
-                at = rng.choice([w.at_a, w.at_b, w.at_c, w.at_r])
+                at = rng.choice([w.at_a, w.at_b, w.at_x, w.at_y, w.at_c, w.at_r])
             else:
                 at = rng.choice(w.signers + [w.forged, w.escal, w.at_sub, w.emptyapp, w.at_suball])
             own_app = [e["psid"] for e in at.certificate["toBeSigned"].get("appPermissions", [])] or UNIVERSE
@@ -348,7 +369,7 @@ def check_issuing(ctx, n):
         if allow_none and r < 0.3:
             return None
         perms = []
-        for _ in range(rng.choice([1, 1, 1, 2])):
+        for _ in range(rng.choice([1, 1, 2, 2, 3])):
             ch = rng.choice([0, 1, 1, 2, 2, 3])
             if rng.random() < 0.35:
                 perms.append(sc.perm_all(ch))
@@ -484,6 +505,19 @@ def witness(kind):
                     bad.append("genuine AA without appPermissions under an explicit root not admitted")
             except KeyError as e:
                 bad.append(f"genuine AA without appPermissions under an explicit root raises KeyError({e})")
+        elif kind == "groups":
+            aa2 = p.issue(root, "aa-groups", issue=[sc.perm_explicit([36, 37], 1), sc.perm_explicit([638], 1)], **live)
+            for app in ([36, 638], [36], [638]):
+                t = p.issue(aa2, app=app, **live)
+                ok, why = sc.chain_ok(t.certificate, {sc.hid8(root.certificate): root.certificate},
+                                      {sc.hid8(aa2.certificate): aa2.certificate})
+                if not ok or not t.verify(p.backend):
+                    bad.append(f"honest ticket for {app} under an AA with groups {{36,37}},{{638}} refused ({why})")
+                else:
+                    st2 = sc.RealStation(p.backend, [root], [aa2], [])
+                    m = sc.make_signed(p.backend, t.key_id, {"psid": app[0], "generationTime": gt}, b"abc", ("certificate", [t.certificate]))
+                    if st2.verify(m).report.value != 0:
+                        bad.append(f"message of the honest ticket for {app} rejected")
         else:
             raise Infra(f"unknown witness {kind}")
     return bad
@@ -508,6 +542,7 @@ def run(ctx):
                 ctx.violation(f"building an honest PKI (root -> AA without appPermissions -> ticket) through the issuing API "
                               f"raised {type(e).__name__}: {e}", {"witness": "noapp"})
                 break
+            honest_world(ctx, w)
             check_histories(ctx, w, per, 25, f"w{wi}h")
         check_issuing(ctx, ctx.scale(300, 5000))
 
